@@ -54,6 +54,7 @@ const (
 	DTGuard // d.Type() == ty
 	DNext   // d.Next(): skips the current element
 	DPrealloc
+	DHelper // a repository helper that receives the decoder: its reads are not followed
 )
 
 type DecEvent struct {
@@ -297,6 +298,9 @@ func (c *codecFn) blockEvents(b *ssa.BasicBlock, reg *Registry, m *Model) []DecE
 				continue
 			}
 			ev := DecEvent{Kind: DNested, Method: id.recv + "." + id.name, Callee: call.Call.StaticCallee(), Pos: call.Pos(), Val: call, Dest: "?"}
+			if _, ok := c.recvFieldOf(args[0]); !ok && !c.isRecv(args[0]) {
+				ev.Kind = DHelper
+			}
 			if f, ok := c.recvFieldOf(args[0]); ok {
 				ev.Dest, ev.DestType = f.Name(), f.Type()
 			}
@@ -316,6 +320,15 @@ func (c *codecFn) blockEvents(b *ssa.BasicBlock, reg *Registry, m *Model) []DecE
 				}
 			}
 			out = append(out, ev)
+		case call.Call.StaticCallee() != nil && call.Call.StaticCallee().Signature.Recv() == nil && strings.HasPrefix(id.pkg, modPath) && id.pkg != ttlvPath && func() bool {
+			for _, a := range args {
+				if a == c.coder {
+					return true
+				}
+			}
+			return false
+		}():
+			out = append(out, DecEvent{Kind: DHelper, Method: id.name, Callee: call.Call.StaticCallee(), Pos: call.Pos(), Val: call, Dest: "?"})
 		case id.is(modPath, "", "newRequestPayload") || id.is(modPath, "", "newResponsePayload") || id.is(modPath, "", "NewObjectForType") || id.is(modPath, "", "newAttribute"):
 			ev := DecEvent{Kind: DPrealloc, Method: id.name, Pos: call.Pos(), Val: call}
 			if f, ok := c.recvFieldOf(args[0]); ok {
